@@ -796,7 +796,13 @@ def run_property(pid, tier, obligations, meta, jobs=None, seed=0):
         deadline = t0 + float(os.environ.get("VERIF_MAX_WALL_S", "900" if tier == "quick" else "14400"))
         with ctx.Pool(jobs, maxtasksperchild=256) as pool:
             running = []
+            last_note = time.time()
             while queue or running:
+                if time.time() - last_note > 120:  # progress note (stderr) for long runs
+                    last_note = time.time()
+                    print(f"[{pid}] progress: {int(last_note - t0)} s, work items done={len(results)} queued={len(queue)} "
+                          f"running={len(running)} paths={sum(r[2].get('paths', 0) for r in results)} "
+                          f"violations={sum(len(r[2].get('violations', [])) for r in results)}", file=sys.stderr, flush=True)
                 if time.time() > deadline or (_enough_violations(results) and time.time() > t0 + 20):
                     # wall-clock limit (or plenty of confirmed violations already): stop; unexplored work is reported
                     _TIMED_OUT.append(len(queue) + len(running))
